@@ -251,7 +251,8 @@ INJECT = ["dup_type_struct", "dup_type_enum", "dup_field", "dup_binding", "dup_e
           "binding_keys_join_underscore", "binding_keys_join_plain", "binding_keys_swapped", "binding_names_case",
           "type_names_case", "field_names_case", "enumerator_names_case", "enumerator_values_congruent",
           # ill-formed look-alikes (MUST fail)
-          "service_case_mismatch", "service_named_like_struct", "wide_can_message_enum"]
+          "service_case_mismatch", "service_named_like_struct", "wide_can_message_enum",
+          "can_binding_to_enum", "can_binding_case_mismatch"]
 
 
 @st.composite
@@ -362,6 +363,15 @@ def g2_case(draw):
             s.decls.append(M.Enum("WideEnumQ", items))
             s.decls.append(M.Struct("WideEq", [M.Field("a", 0, M.EnumRef("WideEnumQ")), M.Field("b", 1, M.U(65 - w))]))
             s.decls.append(M.Impl("can", "WideEq", None, [("id", 962)]))
+        elif tw == "can_binding_to_enum" and s.enums:
+            # an enum is a declared type but not a struct: a CAN binding to it names no struct
+            e = s.enums[k % len(s.enums)]
+            s.decls.append(M.Impl("can", e.name, "EnumBoundQ", [("id", 963)]))
+        elif tw == "can_binding_case_mismatch":
+            st_ = structs[k % len(structs)]
+            other = st_.name.swapcase()
+            if other not in {d.name for d in s.decls if isinstance(d, (M.Struct, M.Enum))}:
+                s.decls.append(M.Impl("can", other, "CaseBoundQ", [("id", 964)]))
         elif tw == "second_struct":
             s.decls.append(M.Struct("SecondQ", [M.Field("a", 0, M.U(8))]))
         elif tw == "same_id_other_protocol":
